@@ -316,6 +316,17 @@ func c12frames(st *c12state, cat string, r *rand.Rand) [][]byte {
 		return out
 	case "generic":
 		s, o := target()
+		if r.IntN(8) == 0 {
+			// terminate whose argument names another object than the one it is
+			// sent to (of the server's or of a client's range): names nothing
+			// this object may remove
+			x := pick32(append([]uint32{1, 2, 0x7fffffff, 0x80000000, 0x80000001, 0xfffffffe, 0xffffffff, o + 1, o | 0x80000000}, w.ObjIDs...)...)
+			if x != o && x != 0 {
+				var b ref.Buf
+				b.U32(x)
+				return [][]byte{ref.NewFrame(uint8(pick32(ref.Call, ref.Post)), s, o, 3, id(), b.Bytes()).Encode()}
+			}
+		}
 		act := pick32(2, 5, 6, 7, 8, 80, 81, 82, 83, 84, 85, 5, 5, 6)
 		var p []byte
 		k := r.IntN(6)
